@@ -35,6 +35,15 @@ order).
 Ghost history per request: every attempt (`Att`), every requested sleep, every answer of the
 budget. Histories are kept newest first.
 
+The event log (`State.log`) is the log the correspondence check compares, **with its instants**: every line is
+`(t, e)`, `t` the instant (ms) the driver prints in front of it (`t=<now>`; `log_stamps_are_the_printed_instants` in
+`TR.Props.C05`). Besides the common events (`inner_call`, `inner_done`, `inner_drop`, `result`, probes) it holds the
+budget's answers: `budget <c> grant` / `budget <c> refused` (`REv.withdraw c granted`) — one line per `try_withdraw`
+made by the loop of request `c`, at the place in the order of events where the call is made (after the `inner_done`
+of the failed attempt, before the back-off / the result). The harness logs them from a wrapper around the budget
+handed to the layer (`mw_retry.rs`, `Logged`); the layer's own `BudgetExhausted` listener event is a meta line
+(`#budget_exhausted <attempt>`) that the monitor `c05-grant-before-retry` checks against the `refused` lines.
+
 Interval functions whose answer is not a function of the retry number alone — `ExponentialRandomBackoff`
 (jitter: a fresh random sample per call) — or is float-computed (`ExponentialBackoff` objects with any
 multiplier / maximum) are *observed choices* (DESIGN §3.2): the harness hands the value the real object
@@ -52,6 +61,32 @@ both the back-off has elapsed and the instance has recovered (`recovered`). `Sta
 ('r' ready, 'p' pending — polled again at once —, 'e' error; exhausted: ready), shared by all requests.
 -/
 namespace TR.Retry
+
+/-! ## the events of the retry log -/
+
+/-- an event of the retry log: one of the common events, or the answer of the budget to a `try_withdraw` made by the
+loop of request `c` -/
+inductive REv
+  | base (e : Ev)
+  | withdraw (c : Nat) (granted : Bool)
+deriving DecidableEq, Repr, Inhabited
+
+namespace REv
+@[match_pattern] abbrev innerCall (c k : Nat) : REv := .base (.innerCall c k)
+@[match_pattern] abbrev innerDone (c k : Nat) (o : Out) : REv := .base (.innerDone c k o)
+@[match_pattern] abbrev innerDrop (c k : Nat) : REv := .base (.innerDrop c k)
+@[match_pattern] abbrev result (c : Nat) (r : Res) : REv := .base (.result c r)
+@[match_pattern] abbrev probe (s : String) : REv := .base (.probe s)
+@[match_pattern] abbrev raw (s : String) : REv := .base (.raw s)
+
+/-- the line compared with the implementation's: `budget <c> grant` / `budget <c> refused` -/
+def toEv : REv → Ev
+  | .base e => e
+  | .withdraw c g => .raw s!"budget {c} {if g then "grant" else "refused"}"
+end REv
+
+/-- one line of the log: the instant (ms) the driver prints in front of it, and the event -/
+abbrev Line := Nat × REv
 
 /-! ## the budget, sequentially -/
 
@@ -208,7 +243,7 @@ structure Outp where
   b      : BState
   serial : Nat
   deps   : Nat := 0           -- ghost: deposits made
-  evs    : List Ev := []
+  evs    : List Line := []
 
 /-! ## one loop iteration -/
 
@@ -219,7 +254,7 @@ def startCall (now serial : Nat) (b : BState) (c : Nat) (cl : Caller) (idx : Nat
                     phase := .calling serial (now + st.lat) st.out,
                     atts := { k := serial, idx := idx, start := now, due := now + st.lat,
                               out := st.out, seen := none, wait := cl.sleeps.headD 0 } :: cl.atts },
-    b := b, serial := serial + 1, evs := [.innerCall c serial] }
+    b := b, serial := serial + 1, evs := [(now, .innerCall c serial)] }
 
 def seenNow (now : Nat) : List Att → List Att
   | [] => []
@@ -256,21 +291,24 @@ def classify (cfg : Cfg) (b : BState) (maxA attempt : Nat) (o : Out) : Cls :=
             else { v := .stop, b := (bu.withdraw b).2, grants := [false] }
   | _ => { v := .stop, b := b }
 
-/-- the inner future is ready: `inner_done`, then either the result or the sleep -/
+/-- the inner future is ready: `inner_done`, then the budget's answer if the loop asks it (`budget c grant|refused`), then
+either the result or the sleep -/
 def observe (cfg : Cfg) (now serial : Nat) (b : BState) (c : Nat) (cl : Caller) (k : Nat) (o : Out) : Outp :=
   let v := classify cfg b cl.maxA cl.attempt o
+  let wd : List Line := v.grants.map fun g => (now, .withdraw c g)
   match v.v with
   | .stop =>
       { cl := { cl with phase := .done, atts := seenNow now cl.atts, grants := v.grants ++ cl.grants,
                         result := some (resOf k o) },
         b := v.b, serial := serial, deps := v.deps,
-        evs := [.innerDone c k o, .result c (resOf k o)] }
+        evs := (now, .innerDone c k o) :: wd ++ [(now, .result c (resOf k o))] }
   | .retry =>
       let d := pick cfg cl.attempt cl.choices.head?
       { cl := { cl with phase := .sleeping (now + ceilMs d), atts := seenNow now cl.atts,
                         grants := v.grants ++ cl.grants, sleeps := d :: cl.sleeps, choices := cl.choices.tail },
         b := v.b, serial := serial, deps := v.deps,
-        evs := .innerDone c k o :: (if okChoice cfg cl.attempt cl.choices.head? then [] else [.raw "choice-not-allowed"]) }
+        evs := (now, .innerDone c k o) :: wd ++
+          (if okChoice cfg cl.attempt cl.choices.head? then [] else [(now, .raw "choice-not-allowed")]) }
 
 /-- The service instance a request uses (the same for all its attempts) answers `Pending` to `poll_ready` until `recov` ms
 have passed since the call it last served (a connection being re-established; no answer of the script is consumed
@@ -285,7 +323,7 @@ def retryCall (now serial : Nat) (b : BState) (c : Nat) (cl : Caller) : Outp :=
   if (readyOf cl.rdy).1 then startCall now serial b c { cl with rdy := (readyOf cl.rdy).2 } (cl.attempt + 1)
   else
     { cl := { cl with rdy := (readyOf cl.rdy).2, phase := .unready, result := some readyErr },
-      b := b, serial := serial, evs := [.result c readyErr] }
+      b := b, serial := serial, evs := [(now, .result c readyErr)] }
 
 /-- one loop iteration of caller `c`, `none` when the future has to wait (or is finished) -/
 def tickC (cfg : Cfg) (now serial : Nat) (b : BState) (c : Nat) (cl : Caller) : Option Outp :=
@@ -318,7 +356,7 @@ structure State where
   b        : BState
   deposits : Nat := 0           -- ghost: number of `deposit` calls
   others   : Nat := 0           -- ghost: withdrawals granted to other users of the shared budget
-  log      : List Ev := []
+  log      : List Line := []    -- the compared event log, every line with its instant
   rdy      : List Char := []    -- script of the inner service's answers to the readiness polls between attempts
 
 inductive Op
@@ -338,7 +376,8 @@ def modify (l : List (Nat × Caller)) (c : Nat) (v : Caller) : List (Nat × Call
   | [] => []
   | (k, x) :: tl => if k = c then (k, v) :: tl else (k, x) :: modify tl c v
 
-def emit (s : State) (evs : List Ev) : State := { s with log := s.log ++ evs }
+/-- append events, stamped with the current instant -/
+def emit (s : State) (evs : List REv) : State := { s with log := s.log ++ evs.map fun e => (s.now, e) }
 
 /-- an upper bound on the loop iterations of one poll: every attempt is one call and one sleep -/
 def fuel (cl : Caller) : Nat := 2 * cl.maxA + 4
@@ -371,7 +410,7 @@ def arriveS (cfg : Cfg) (s : State) (c : Nat) (ma : Option Nat) (plan : List Ste
       let m := if cfg.dyn then ma.getD cfg.max else cfg.max
       { s with callers := (c, { maxA := m, plan := plan }) :: s.callers }
 
-def noop : Ev := .raw "noop"
+def noop : REv := .raw "noop"
 
 def stepS (cfg : Cfg) (s : State) (op : Op) : State :=
   match op with
@@ -606,7 +645,7 @@ def machine : Machine where
   init kv := let p := parseCfg kv; (p, init p.1)
   step := fun (p, s) ws =>
     match parseOp p.2 ws with
-    | some op => let s' := stepS p.1 s op; ((p, s'), s'.log.drop s.log.length)
+    | some op => let s' := stepS p.1 s op; ((p, s'), (s'.log.drop s.log.length).map fun l => l.2.toEv)
     | none => ((p, s), [])
   now := fun (_, s) => s.now
 
